@@ -326,6 +326,9 @@ func runC18(c *Ctx) {
 		c.check(okR, rule, fnName(fn)+": clears the flag once applied", c.P.Pos(fn.Pos()), "found", "flag never cleared")
 	}
 
+	c18TargetFresh(c)
+	c18HydrationComplete(c)
+
 	// R6 polling and catch-up
 	if fn := c.fn("R6-contiguous-polling", "(*ls.VFSFile).pollLevel"); fn != nil {
 		const rule = "R6-contiguous-polling"
@@ -393,6 +396,152 @@ func runC18(c *Ctx) {
 		}
 		if !usesCommit {
 			c.info("O1-observation", fnName(fn)+": FileSize derives from the largest indexed page, not from the commit record", c.P.Pos(fn.Pos()), "recorded observation (no rule armed)")
+		}
+	}
+}
+
+// c18TargetFresh (R5b): the map that receives the polled page updates is, on
+// every path, the map the VFSFile field (index / pending) holds at that moment:
+// a local alias taken before the field was re-assigned (`f.pending = make(...)`)
+// would send the updates into a map that Unlock no longer sees.
+func c18TargetFresh(c *Ctx) {
+	const rule = "R5-pending-replace"
+	fn := c.fn(rule, "(*ls.VFSFile).pollReplicaClient")
+	if fn == nil {
+		return
+	}
+	fieldOf := func(v ssa.Value) string {
+		u, ok := v.(*ssa.UnOp)
+		if !ok || u.Op != token.MUL {
+			return ""
+		}
+		fa, ok := u.X.(*ssa.FieldAddr)
+		if !ok {
+			return ""
+		}
+		switch n := fieldAddrName(fa); n {
+		case "VFSFile.index", "VFSFile.pending":
+			return n
+		}
+		return ""
+	}
+	// stale(l, end): a store to l's field can execute after load l and before the end of block `end`
+	stale := func(l ssa.Value, end *ssa.BasicBlock) string {
+		f := fieldOf(l)
+		if f == "" {
+			return ""
+		}
+		li := l.(ssa.Instruction)
+		for _, st := range storesToField(fn, f) {
+			if st.Block().Parent() != fn {
+				continue
+			}
+			after := (st.Block() == li.Block() && instrIndex(st) > instrIndex(li)) || (st.Block() != li.Block() && reachable(fn, li.Block(), nil)[st.Block()])
+			before := st.Block() == end || reachable(fn, st.Block(), nil)[end]
+			if st.Block() == end && st.Block() == li.Block() && instrIndex(st) < instrIndex(li) {
+				after = false
+			}
+			if after && before {
+				return c.pos(st)
+			}
+		}
+		return ""
+	}
+	type vk struct {
+		v   ssa.Value
+		end *ssa.BasicBlock
+	}
+	var check func(v ssa.Value, end *ssa.BasicBlock, seen map[vk]bool) string
+	check = func(v ssa.Value, end *ssa.BasicBlock, seen map[vk]bool) string {
+		if seen[vk{v, end}] {
+			return ""
+		}
+		seen[vk{v, end}] = true
+		if phi, ok := v.(*ssa.Phi); ok {
+			for i, e := range phi.Edges {
+				// the operand must be fresh at the end of its predecessor ...
+				if w := check(e, phi.Block().Preds[i], seen); w != "" {
+					return w
+				}
+				// ... and stay fresh from the phi to `end`
+				if _, isPhi := e.(*ssa.Phi); !isPhi {
+					if fieldOf(e) != "" && end != phi.Block().Preds[i] {
+						f := fieldOf(e)
+						for _, st := range storesToField(fn, f) {
+							if st.Block().Parent() != fn {
+								continue
+							}
+							if (st.Block() == phi.Block() || reachable(fn, phi.Block(), nil)[st.Block()]) && (st.Block() == end || reachable(fn, st.Block(), nil)[end]) && st.Block() != phi.Block().Preds[i] {
+								if !reachable(fn, st.Block(), nil)[phi.Block()] { // not a loop back to the phi
+									return c.pos(st)
+								}
+							}
+						}
+					}
+				}
+			}
+			return ""
+		}
+		return stale(v, end)
+	}
+	n := 0
+	for _, b := range fn.Blocks {
+		for _, in := range b.Instrs {
+			mu, ok := in.(*ssa.MapUpdate)
+			if !ok {
+				continue
+			}
+			isIdx := false
+			leaves, _ := phiLeaves(mu.Map)
+			for _, l := range leaves {
+				if fieldOf(l) != "" {
+					isIdx = true
+				}
+			}
+			if !isIdx {
+				continue
+			}
+			n++
+			w := check(mu.Map, mu.Block(), map[vk]bool{})
+			c.check(w == "", rule, fnName(fn)+": the map receiving polled page updates is the one currently stored in f.index / f.pending", c.pos(mu), "no re-assignment of the field between the alias and the update on any path",
+				"the update target is an alias taken before the field was re-assigned at "+w+": the polled pages go into a map that is no longer the pending/main index")
+		}
+	}
+	c.floor(rule, n, 1, "page index updates in pollReplicaClient")
+}
+
+// c18HydrationComplete (R7): hydrated reads are enabled only by runHydration, and only
+// after restore and catch-up succeeded (the hydrated file is then at the index's TXID).
+func c18HydrationComplete(c *Ctx) {
+	const rule = "R7-hydration-complete-only-after-catch-up"
+	n := 0
+	for _, fn := range c.P.ProdFuncs() {
+		for _, call := range callsTo(fn, nameIs("(*ls.Hydrator).SetComplete")) {
+			n++
+			root := fn
+			for root.Parent() != nil {
+				root = root.Parent()
+			}
+			c.check(fnName(root) == "(*ls.VFSFile).runHydration", rule, "Hydrator.SetComplete called from "+fnName(root), c.pos(call), "runHydration",
+				"hydrated reads are (re-)enabled outside the hydration run: the local file may be behind or ahead of the page index (e.g. after time travel), so reads return pages of another TXID")
+		}
+	}
+	c.floor(rule, n, 1, "Hydrator.SetComplete call sites")
+	if fn := c.fn(rule, "(*ls.VFSFile).runHydration"); fn != nil {
+		for _, sc := range callsTo(fn, nameIs("(*ls.Hydrator).SetComplete")) {
+			for _, k := range callsTo(fn, nameIs("(*ls.Hydrator).Restore", "(*ls.Hydrator).CatchUp", "(*ls.Hydrator).Truncate")) {
+				kerr := resultOf(k, errResultIndex(k.Common().Signature()))
+				if kerr == nil {
+					continue
+				}
+				bad := false
+				for _, e := range factEdges(fn, cmpFact(vIs(kerr), token.NEQ, vNil(), "")) {
+					if reachable(fn, e.From.Succs[e.Succ], nil)[sc.Block()] {
+						bad = true
+					}
+				}
+				c.check(!bad, rule, fnName(fn)+": SetComplete is unreachable after a failed "+calleeName(k), c.pos(k), "fail-stop", "hydration is marked complete although "+calleeName(k)+" failed")
+			}
 		}
 	}
 }
